@@ -155,8 +155,10 @@ class Ref:
         return self.p["lam"]
 
     # ---- point generation ------------------------------------------------------
-    def sample(self, rng, n):
-        """x points inside the domain and the stated conditioning region"""
+    def sample(self, rng, n, whole_domain=False):
+        """x points inside the domain and the stated conditioning region. With
+        whole_domain the shifted argument may lie anywhere in (0, inf), otherwise
+        only where the Jacobian is defined (x + nu > mininu)"""
         nm, p = self.name, self.p
         if nm == "Identity":
             return rng.normal(size=n) * 10.0 ** rng.integers(-8, 9, size=n)
@@ -181,7 +183,13 @@ class Ref:
             x = z - nu
             # mix in points near x = 0 and neighbours of representable values
             x[: n // 8] = nu * 10.0 ** rng.uniform(-8, 3, size=n // 8)
-            x = x[x + nu > max(self.ctor.get("mininu", EPSB), 0) * (1 + 1e-9)]
+            if whole_domain:
+                lowz = np.exp(rng.uniform(math.log(1e-12), 0.0, size=n // 6)) * \
+                    max(self.ctor.get("mininu", EPSB), 1e-12)
+                x = np.concatenate([x, lowz - nu])
+                x = x[x + nu > 0]
+            else:
+                x = x[x + nu > max(self.ctor.get("mininu", EPSB), 0) * (1 + 1e-9)]
             if nm != "Log" and nm != "Reciprocal" and lam != 0:
                 x = x[np.abs(lam * np.log(x + nu)) <= 13.8]
             return x
